@@ -23,6 +23,10 @@ class Late:
     pass
 
 
+class BlockError(Exception):
+    pass
+
+
 def leaves(e: BaseException) -> list[BaseException]:
     if isinstance(e, BaseExceptionGroup):
         out = []
@@ -70,6 +74,8 @@ class C09(E1Check):
                     if s["body"] not in ("raise", "raise-td") and handler not in ("none", "true"):
                         continue
                     progs.append({"fctx": fctx, "handler": handler, "spawns": [s]})
+                    if s["body"] in ("raise", "ret") and s["place"] == "F":
+                        progs.append({"fctx": fctx, "handler": handler, "spawns": [s], "block_raises": True})
                 pairs = list(itertools.product(spawn_opts, repeat=2))
                 for a, b in pairs:
                     if fctx == "root" and "after" in (a["place"], b["place"]):
@@ -118,7 +124,7 @@ class C09(E1Check):
 
         log = env.log
         st = env.data["st"] = {"spawned": {}, "body_ended": set(), "waited": set(), "raised": {}, "handler_calls": [],
-                               "factory": None, "failed_spawns": set(), "hfail": [], "helpers": {}, "own_td_pending": set()}
+                               "factory": None, "failed_spawns": set(), "hfail": [], "helpers": {}, "own_td_pending": set(), "called_in": {}, "body_ctx": {}}
         spawns = program["spawns"]
 
         def _handler(exc: Exception) -> Any:
@@ -176,6 +182,7 @@ class C09(E1Check):
                     chain.append(c)
                     c = c.parent
                 ok = expect["F"] in chain[1:] and all(x not in chain for x in expect["not"]) and cur is not expect["F"]
+                st["body_ctx"][i] = cur
                 snap = tuple(sorted(v.label for v in cur.get_resources(Res).values()))
                 log("body+", i, ok, snap)
                 check_handles(f"body {i} start", False)
@@ -229,7 +236,15 @@ class C09(E1Check):
                 import functools
 
                 # arguments are passed "via lambda" (documented) or functools.partial: not every task function is a coroutine function
-                fn = body if i % 3 == 0 else (lambda: body()) if i % 3 == 1 else functools.partial(body)
+                def called_in() -> Any:
+                    # evaluated when the task callable is CALLED (the documented `lambda: func(args)` shape): already in the task's context
+                    try:
+                        c = current_context()
+                    except Exception:  # noqa: BLE001
+                        c = None
+                    st["called_in"][i] = c
+
+                fn = body if i % 3 == 0 else (lambda: (called_in(), body())[1]) if i % 3 == 1 else functools.partial(body)
                 if s["how"] == "start_task":
                     h = await factory.start_task(fn, f"t{i}")
                 else:
@@ -311,6 +326,8 @@ class C09(E1Check):
                     ev.set()
                 log("leaving")
                 st["leaving_idx"] = len(env.trace)
+                if program.get("block_raises"):
+                    raise BlockError("the block itself fails")
             log("f-left")
 
         class _Null:
@@ -367,6 +384,9 @@ class C09(E1Check):
                     fail("context", f"task {ev[1]} does not run in a fresh context inheriting from the factory's context (or inherits from its spawner)")
                 if ev[3] != st.get("snapshot"):
                     fail("context", f"task {ev[1]} sees resources {ev[3]}, the factory was started with {st.get('snapshot')}")
+        for i, c in st["called_in"].items():
+            if i in st["body_ctx"] and c is not st["body_ctx"][i]:
+                fail("context", f"the callable of task {i} was called outside the task's own context (in {c!r})")
         for ev in tr:
             if ev[0] == "late-factory-visible":
                 fail("context", f"task {ev[1]} can use a resource factory that was added to the owning context after the task factory had been started")
@@ -392,11 +412,18 @@ class C09(E1Check):
         if stray:
             fail("handler", f"exception handler was called with {stray!r}, which no task raised")
         out = st.get("exc")
+        if program.get("block_raises") and (out is None or not any(isinstance(x, BlockError) for x in leaves(out))) and ("leaving",) in tr:
+            fail("swallowed", f"the block raised BlockError but the root block ended with {out!r}")
         if went_down:
+            # every unswallowed exception whose task ended after the block had begun to leave must still come out
+            late_raisers = [i for i in unswallowed if program.get("block_raises")]
+            for i in late_raisers:
+                if out is None or not any(x is st["raised"][i] for x in leaves(out)):
+                    fail("swallowed", f"the exception of task {i} was not swallowed by the handler but is missing from what the root block raised: {out!r}")
             if out is None or not any(x is st["raised"][i] for x in leaves(out) for i in unswallowed):
                 fail("swallowed", f"task exception(s) {[st['raised'][i] for i in unswallowed]!r} not swallowed by the handler but the root block ended with {out!r}")
             return
-        if out is not None:
+        if out is not None and not (program.get("block_raises") and all(isinstance(x, BlockError) for x in leaves(out))):
             fail("unexpected-error", f"every task exception was swallowed but the root block raised {out!r}")
         # cancellation: exactly the cancelled handles' bodies see it
         cancelled = st.get("cancelled", set())
